@@ -352,10 +352,11 @@ def check_agg(ctx):
 
 
 def _evaluating_function(ctx, drv: FuncInfo, depth=3):
-    src = ast.unparse(drv.node)
-    has_eval = any(isinstance(n, ast.Call) and isinstance(n.func, ast.Attribute) and n.func.attr == "evaluate" for n in ast.walk(drv.node))
-    has_loop = any(isinstance(n, (ast.For, ast.While)) for n in ast.walk(drv.node))
-    if has_eval and (has_loop or "column_stack" in src):
+    # the function on the driver's call path that evaluates the scorer (structural: a call of `.evaluate` on one of its
+    # parameters; how it builds the cuts - loop, column_stack, a helper - does not matter)
+    params = set(drv.params)
+    has_eval = any(isinstance(n, ast.Call) and isinstance(n.func, ast.Attribute) and n.func.attr == "evaluate" and isinstance(n.func.value, ast.Name) and n.func.value.id in params for n in ast.walk(drv.node))
+    if has_eval:
         return drv
     if depth == 0:
         return None
